@@ -24,3 +24,4 @@ void __CPROVER_assume(int c){ if (!c) { fflush(stdout); _Exit(3); } }
 void __verif_check(int c){ if (!c) { printf("CHECK-FAILED\n"); fflush(stdout); _Exit(1); } }
 void __verif_native_assert(int c, const char *m){ if (!c) { printf("CHECK-FAILED %s\n", m); fflush(stdout); _Exit(1); } }
 void __verif_error_hook(void){ printf("cmac_error reached\n"); }
+unsigned long __verif_fork_u(unsigned long lo, unsigned long hi){ uint64_t v = next(); if (v < lo || v > hi) { fflush(stdout); _Exit(3); } return v; }
